@@ -933,6 +933,12 @@ Definition step (s : sys) (e : event) : res sys :=
       check in_user_code (a_phase x) else 4402 ;;
       check Nat.eqb (a_bcur x) (length (filter (fun c => Nat.eqb (fst c) ty) (a_children x))) else 4403 ;;
       Acc s
+  | EvIdentity a same =>
+      (* a restart keeps the actor's identity: the context its new incarnation is started with
+         carries the id every handle issued before carries *)
+      x <- get_actor s a 4501 ;;
+      check same else 4502 ;;
+      Acc s
   | EvQuery c h running b =>
       match handles s h with
       | None => Rej 3801
